@@ -214,7 +214,7 @@ pub fn plan(property: &str, tier: &str) -> Option<CheckSpec> {
             let nconc = b.add_concurrent(&gc, &[false], 2, &rules, if quick { 1 } else { 2 });
             rule_text = format!("named multi-threaded scenarios x all schedules up to the preemption bound, plus {nconc} generated concurrent two-thread programs (operations moved to a second thread, hand-offs only where well-formedness needs them, preemptions <= 2), plus {n1} generated single-actor and {n2} two-actor lock-step programs x all placements of atomic collector cycles; an execution is non-trivial when a collector drain step falls between the first and the last queue command of the program");
             bound_text = format!("scenarios: preemptions <= {bound}, 2 collector cycles + final flush; generated: <= 3 spans, <= {} local spans, <= {} operations, <= {} cycles", g.max_locals, g.max_len, if quick { 1 } else { 2 });
-            assumptions.push("wall-clock half of the statement: in the exploration the timer is abstracted to 'a cycle happens' (rule `prompt`); the library's own background thread is additionally observed free-running (report interval 10 ms, no flush(), 20 rounds, each round's spans must arrive within 20 intervals + 0.5 s) - an observation, not an enumeration; it appears under coverage.external_engine".into());
+            assumptions.push("wall-clock half of the statement: in the exploration the timer is abstracted to 'a cycle happens' (rule `prompt`); the library's own background thread is additionally observed free-running (report interval 10 ms, no flush(), 20 rounds, each round's spans must arrive within 20 intervals + 0.5 s; then the reporter is replaced while a worker finishes spans during the old reporter's tear-down, and the spans must reach the new reporter) - an observation, not an enumeration; it appears under coverage.external_engine".into());
             external = Some((std::env::current_exe().unwrap().to_string_lossy().to_string(), vec!["freerun".into(), "10".into()]));
         }
         "C03" => {
@@ -422,6 +422,9 @@ pub fn plan(property: &str, tier: &str) -> Option<CheckSpec> {
             g.max_locals = if quick { 1 } else { 3 };
             g.max_len = if quick { 5 } else { 6 };
             g.allow_noop = !quick;
+            // (attachments change the scope's "innermost open local span" bookkeeping)
+            g.local_attach = true;
+            g.max_attach = 1;
             let n1 = b.add_gen(&g, 1, &[false, true], &rules, 2_000_000);
             // two actors in lock-step: spans created, scoped and finished on either thread
             let mut g2 = g.clone();
@@ -610,6 +613,8 @@ pub fn plan(property: &str, tier: &str) -> Option<CheckSpec> {
             g.busy_wait_us = 150;
             g.max_len = if quick { 5 } else { 7 };
             let n1 = b.add_gen(&g, if quick { 1 } else { 2 }, &[false], &rules, 3_000_000);
+            // spans and local spans that stay open for more than a second
+            b.add_batch(long_span_programs(), false, false, &rules);
             rule_text = format!("{n1} generated programs with a 150us busy-wait before every operation and harness-side clock brackets around every operation, x collector cycles anywhere");
             bound_text = format!("<= 2 spans, <= 3 local spans, nesting <= 3, <= {} operations", g.max_len);
             assumptions.push("the clock itself is not enumerated (it never influences control flow); durations are compared with harness-side monotonic brackets (tolerance 30us + 0.2%), begin times with wall-clock brackets +-10ms".into());
